@@ -460,6 +460,19 @@ def run(ctx):
                 ok = (a[0] == b[0] == 'rt') or (a[0] == b[0] == 'val' and a[1][0] == 'b' and b[1][0] == 'b' and a[1][1] != b[1][1])
                 if not ok:
                     ctx.violation("oracle", f"`({v}) is {p}` gives {a} but `({v}) is not {p}` gives {b}", {"op": "predicate", "value": v, "pred": p})
+        # ---------------- `+` between a string and a value of another kind is concatenation with that value's text (the text string() gives)
+        texts = ["0", "-7", "9007199254740993", "100000000000000000007", "2.5", "-0.5", "0.1", "1.0", "0.00001", "0.000000123", "1.0 / 100000", "1.0 / 3",
+                 "10000000000000000.0", "123456789012345678901234.0", "1.5 * 10000000000000000000000", "1.0 * 9007199254740993", "TRUE", "NULL", "date('20200229')"]   # atoms only: `+` with a collection is a collection operation
+        for v in texts:
+            for tmpl in ("'x=' + ({v}) == 'x=' + string({v})", "({v}) + '!' == string({v}) + '!'", "def t = 'x='; t += ({v}); t == 'x=' + string({v})"):
+                src = tmpl.replace("{v}", v)
+                got = impl.run(src)[0][:2]
+                ctx.seen(("concat", src), nontrivial=True)
+                ctx.count("string_concatenations")
+                if v == "NULL":
+                    continue        # arithmetic on NULL gives NULL
+                if got != ('val', ('b', True)):
+                    ctx.violation("oracle", f"`{src}` gives {got}: concatenating a string with a value must use the value's text", {"op": "expr", "src": src})
         # ---------------- model evaluator and model front end
         if ctx.build.ok:
             resp = core.run_driver(reqs)
